@@ -343,6 +343,16 @@ def fixed_seq_shapes():
         "elements": [assign("next", target("r", [p_idx(0)]), A), if_(B, [assign("next", target("r", [p_idx(3)]), A)])],
         "dyn_element": [assign("next", target("r", [p_dynidx(D)]), A)],
         "nested_if": [if_(A, [if_(B, [assign("next", "o", pint(1))], [assign("next", "o", pint(2))])], [if_(B, [assign("next", "o", pint(3))])])],
+        "match_with_default": [match_(D, [(pint(0), [assign("next", "o", pint(1))]), (pint(2), [assign("next", "o", pint(2)), assign("next", "s", D)])],
+                                      default=[assign("next", "o", pint(7))])],
+        "match_without_default": [match_(D, [(pint(1), [assign("next", "o", pint(3))]), (pint(3), [assign("value", "v", D), assign("next", "q", V)])])],
+        "match_bitvector_literals": [match_(view(D, "bv"), [(strlit("00"), [assign("next", "q", pint(1))]), (strlit("11"), [assign("next", "q", pint(2))])],
+                                            default=[assign("next", "q", S)]), assign("next", "s", D)],
+        "match_duplicate_case": [match_(D, [(pint(1), [assign("next", "o", pint(1))]), (pint(1), [assign("next", "o", pint(2)), assign("next", "q", D)]), (pint(2), [assign("next", "o", pint(4))])])],
+        "match_nested_in_if": [if_(A, [match_(D, [(pint(0), [assign("push", "p", TRUE)])], default=[assign("next", "o", pint(5))])], [assign("next", "o", pint(6))])],
+        "for_break_chain": [forchain([A, B, idx(D, 0)], [pint(1), pint(2), pint(3)], "o")],
+        "for_break_else": [forchain([B, A], [pint(5), pint(6)], "o", elseval=resize(D, 3)), assign("next", "q", D)],
+        "for_break_variable": [forchain([A, B], [D, pint(1)], "v", mode="value", elseval=pint(0)), assign("next", "q", V)],
         "elif_chain": [if_(A, [assign("next", "o", pint(1))], [if_(B, [assign("next", "o", pint(2))], [if_(bin_("eq", D, pint(3)), [assign("next", "o", pint(3))], [assign("next", "o", pint(4))])])])],
     }
 
